@@ -37,6 +37,12 @@ var regressionHistories = [][]string{
 	// then an in-order request; cached lock seqid; proper; already associated
 	{"v40", "open 0 0 0 1 0 2 0", "confirm 1 0 2", "lock 2 1 3 100 0 5 0", "open 3 0 0 4 1 2 0", "lock 4 3 5 105 0 5 0 lo=2", "down 5 3 5 2",
 		"lock 6 5 6 100 8 5 0 lo=2", "lock 7 5 7 101 8 5 0 lo=2", "lock 8 1 8 102 20 5 0 lo=2", "down 9 5 8 1", "lock 10 5 10 102 30 2 0 lo=2"},
+	// one lock-owner with lock state on two files (one open-owner; two open-owners): LOCKU on b, CLOSE of a, retransmitted LOCKU
+	{"v40", "open 0 0 0 1 0 2 0", "confirm 1 0 2", "lock 2 1 3 100 0 5 0", "open 3 0 0 4 1 2 0", "lock 4 3 5 101 0 5 0 lo=2", "locku 5 4 102 0 5", "close 6 1 6", "dup 5", "lockx 7 5 103 8 2 0"},
+	{"v40", "open 0 0 0 1 0 2 0", "confirm 1 0 2", "lock 2 1 3 100 0 5 0", "open 3 0 1 1 1 2 0", "confirm 4 3 2", "lock 5 4 3 101 0 5 0 lo=2", "locku 6 5 102 0 5", "close 7 1 4", "dup 6"},
+	// owner and lock-owner seqids crossing 2^31 and wrapping after 2^32-1 (successor of 0xffffffff is 1)
+	{"v40", "open 0 0 0 2147483646 0 2 0", "confirm 1 0 2147483647", "lock 2 1 2147483648 4294967294 0 5 0", "dup 2", "lockx 3 2 4294967295 8 2 0", "lockx 4 3 1 12 2 0", "lockx 5 4 0 20 2 0", "close 6 1 2147483649", "dup 6"},
+	{"v40", "open 0 0 0 4294967294 0 2 0", "confirm 1 0 4294967295", "down 2 1 1 2", "down 3 2 0 2", "close 4 2 2", "dup 4"},
 	{"v41", "reg 0 1", "cs 0 0", "cs 0 2", "reg 0 2", "cs 0 0", "send 0 0 0 1 1 empty", "send 1 1 0 1 1 empty", "reg 1 1", "send 2 2 0 1 1 dsess 2", "dup 2"},
 }
 
